@@ -6,8 +6,8 @@ src/pyramid/urldispatch.py `_compile_route`, `ResourceURL`/`_join_path_tuple` of
 `StaticURLInfo.generate` of src/pyramid/config/views.py, WebOb's `host_url`/`application_url`), and of the
 *standard parser* (`urllib.parse.urlsplit`, `parse_qsl`, `unquote`) as the specification side.  Core Lean only.
 
-The safe-character set of every quoting call site comes from `Gen/C17.lean`, which `extract/c17.py` regenerates
-from the source on every run.
+The safe-character set of every quoted position comes from `Gen/C17.lean`, which `extract/c17.py` regenerates on
+every run by probing the running helpers of the source tree under test (128 ASCII characters per position).
 
 Functions modelled (line numbers of src/pyramid/url.py unless said otherwise)
 * `urlencode`            encode.py 25-83 (items in order, sequences expanded, `None` ⇒ `k=`, the `prefix` variable)
